@@ -105,6 +105,20 @@ def h_c08(eng):
     del names
 
 
+def h_c09(eng):
+    ureg = regs.float_default()
+    Qy = ureg.Quantity
+    # a 0-d array magnitude is formatted like the scalar it holds, in the LaTeX layout too
+    r = _outcome(lambda: format(Qy(np.array(1.5), "meter"), ".2fL"))
+    _report(eng, r[0] == "ok" and r[1] == format(Qy(1.5, "meter"), ".2fL"), "latex:zero-d-array-magnitude-prints-the-spec-literally")
+    # the compact modifier on an offset unit renders (or leaves the unit alone), it does not raise
+    r = _outcome(lambda: format(Qy(0.001, "degC"), "#"))
+    _report(eng, r[0] == "ok", "compact-modifier:offset-unit-raises")
+    # siunitx prefix stripping keeps every prefix and does not cut plain unit names
+    r = _outcome(lambda: format(ureg.Unit("decade"), "Lx"))
+    _report(eng, r[0] == "ok" and "\\deca\\de" not in r[1], "siunitx:plain-unit-name-cut-into-prefix-and-rest")
+
+
 def h_c13(eng):
     # the unit order of a root-unit result does not depend on who asked first
     used = pint.UnitRegistry()
